@@ -361,6 +361,24 @@ def stamps [OfNat τ 0] (P : τ) (n : Nat) : List τ := (List.range n).map (stam
 or a clone is entered when its main frame is entered, not necessarily at tick 0) -/
 def stampsFrom [OfNat τ 0] (P : τ) (s n : Nat) : List τ := (stamps P (s + n)).drop s
 
+/-! ## framer periods (`framer x be active at Q`)
+
+`Skedder.run` keeps `(tasker, retime, period)` for every ready tasker: in each tick
+`if retime > stamp: skip  else: run; retime += period`, then `stamp += P`.  `retime` starts as the store
+stamp at the start (0).  The framer's clocks only move when it runs, so it sees the sub-list of the
+store stamps at which it is run; period 0 (the default) runs every tick. -/
+
+/-- per tick: is the framer run? -/
+def runsAt (P Q : τ) : Nat → τ → τ → List Bool
+  | 0, _, _ => []
+  | n + 1, stamp, retime =>
+    if stamp < retime then false :: runsAt P Q n (stamp + P) retime
+    else true :: runsAt P Q n (stamp + P) (retime + Q)
+
+/-- the store stamps at which a framer of period `Q` is run during the first `n` ticks -/
+def framerStamps [OfNat τ 0] (P Q : τ) (n : Nat) : List τ :=
+  ((stamps P n).zip (runsAt P Q n 0 0)).filterMap (fun sr => if sr.2 then some sr.1 else none)
+
 end generic
 
 end Ioflo.FloClock
